@@ -108,10 +108,11 @@ impl Fx {
     }
 
     /// Deploy store + tokens + feeds, then the treasury on top.
-    pub fn deploy(w: &mut World, n_tokens: usize, token_order: u8, n_users: usize, gt: &GtParams, start_ts: i64) -> Fx {
+    pub fn deploy(w: &mut World, n_tokens: usize, token_order: u8, n_users: usize, gt: &GtParams, start_ts: i64, with_market: bool) -> Fx {
         let opts = DeployOpts {
             tokens: token_specs(n_tokens, token_order),
-            markets: vec![],
+            // a pure market on token 0 gives `claim_fees` something to claim from (C19 twins)
+            markets: if with_market { vec![(0, 0, 0)] } else { vec![] },
             n_users: n_users + 1,
             user_token_amount: 1_000_000,
             start_ts,
@@ -538,6 +539,163 @@ impl Fx {
             ix.accounts.push(AccountMeta::new(t.2, false));
         }
         Some((ix, triples))
+    }
+
+    pub fn tvc_pda(&self, index: u16) -> Pubkey {
+        tpda(&[b"treasury_vault_config", self.config.as_ref(), &index.to_le_bytes()])
+    }
+
+    pub fn init_tvc_ix(&self, signer: &Pubkey, index: u16) -> Instruction {
+        any_ix(
+            TREASURY,
+            gmsol_treasury::accounts::InitializeTreasuryVaultConfig {
+                authority: *signer,
+                store: self.d.store,
+                config: self.config,
+                treasury_vault_config: self.tvc_pda(index),
+                store_program: gmsol_store::ID,
+                system_program: system_program::ID,
+            },
+            gmsol_treasury::instruction::InitializeTreasuryVaultConfig { index },
+        )
+    }
+
+    pub fn set_tvc_ix(&self, signer: &Pubkey, tvc: &Pubkey) -> Instruction {
+        any_ix(
+            TREASURY,
+            gmsol_treasury::accounts::SetTreasuryVaultConfig {
+                authority: *signer,
+                store: self.d.store,
+                config: self.config,
+                treasury_vault_config: *tvc,
+                store_program: gmsol_store::ID,
+            },
+            gmsol_treasury::instruction::SetTreasuryVaultConfig {},
+        )
+    }
+
+    pub fn insert_token_ix(&self, signer: &Pubkey, t: usize) -> Instruction {
+        any_ix(
+            TREASURY,
+            gmsol_treasury::accounts::InsertTokenToTreasuryVault {
+                authority: *signer,
+                store: self.d.store,
+                config: self.config,
+                treasury_vault_config: self.tvc,
+                token: self.mint(t),
+                store_program: gmsol_store::ID,
+            },
+            gmsol_treasury::instruction::InsertTokenToTreasuryVault {},
+        )
+    }
+
+    pub fn remove_token_ix(&self, signer: &Pubkey, t: usize) -> Instruction {
+        any_ix(
+            TREASURY,
+            gmsol_treasury::accounts::RemoveTokenFromTreasuryVault {
+                authority: *signer,
+                store: self.d.store,
+                config: self.config,
+                treasury_vault_config: self.tvc,
+                token: self.mint(t),
+                store_program: gmsol_store::ID,
+            },
+            gmsol_treasury::instruction::RemoveTokenFromTreasuryVault {},
+        )
+    }
+
+    pub fn toggle_flag_ix(&self, signer: &Pubkey, t: usize, flag: &str, value: bool) -> Instruction {
+        any_ix(
+            TREASURY,
+            gmsol_treasury::accounts::ToggleTokenFlag {
+                authority: *signer,
+                store: self.d.store,
+                config: self.config,
+                treasury_vault_config: self.tvc,
+                token: self.mint(t),
+                store_program: gmsol_store::ID,
+            },
+            gmsol_treasury::instruction::ToggleTokenFlag { flag: flag.to_string(), value },
+        )
+    }
+
+    pub fn set_referral_reward_ix(&self, signer: &Pubkey, factors: Vec<u128>) -> Instruction {
+        any_ix(
+            TREASURY,
+            gmsol_treasury::accounts::SetReferralReward {
+                authority: *signer,
+                store: self.d.store,
+                config: self.config,
+                store_program: gmsol_store::ID,
+            },
+            gmsol_treasury::instruction::SetReferralReward { factors },
+        )
+    }
+
+    pub fn transfer_receiver_ix(&self, signer: &Pubkey, next_receiver: &Pubkey) -> Instruction {
+        any_ix(
+            TREASURY,
+            gmsol_treasury::accounts::TransferReceiver {
+                authority: *signer,
+                store: self.d.store,
+                config: self.config,
+                receiver: self.receiver,
+                next_receiver: *next_receiver,
+                store_program: gmsol_store::ID,
+                system_program: system_program::ID,
+            },
+            gmsol_treasury::instruction::TransferReceiver {},
+        )
+    }
+
+    pub fn withdraw_ix(&self, signer: &Pubkey, t: usize, target: &Pubkey, amount: u64) -> Instruction {
+        any_ix(
+            TREASURY,
+            gmsol_treasury::accounts::WithdrawFromTreasuryVault {
+                authority: *signer,
+                store: self.d.store,
+                config: self.config,
+                treasury_vault_config: self.tvc,
+                token: self.mint(t),
+                treasury_vault: self.treasury_vaults[t],
+                target: *target,
+                store_program: gmsol_store::ID,
+                token_program: spl_token::ID,
+            },
+            gmsol_treasury::instruction::WithdrawFromTreasuryVault { amount, decimals: self.d.tokens[t].decimals },
+        )
+    }
+
+    /// `claim_fees` from market 0 (a pure market on token 0) into the receiver vault.
+    pub fn claim_fees_ix(&self, signer: &Pubkey) -> Option<Instruction> {
+        let m = self.d.markets.first()?;
+        let t = m.long;
+        Some(any_ix(
+            TREASURY,
+            gmsol_treasury::accounts::ClaimFees {
+                authority: *signer,
+                store: self.d.store,
+                config: self.config,
+                receiver: self.receiver,
+                market: m.market,
+                token: self.mint(t),
+                vault: chainsim::deploy::vault_of(&self.d.store, &self.mint(t)),
+                receiver_vault: self.receiver_vaults[t],
+                event_authority: self.d.event_authority,
+                store_program: gmsol_store::ID,
+                token_program: spl_token::ID,
+                associated_token_program: spl_associated_token_account::ID,
+                system_program: system_program::ID,
+            },
+            gmsol_treasury::instruction::ClaimFees { min_amount: 0 },
+        ))
+    }
+
+    pub fn grant_role_ix(&self, user: &Pubkey, role: &str) -> Instruction {
+        store_ix(
+            gmsol_store::accounts::GrantRole { authority: self.d.admin, store: self.d.store },
+            gmsol_store::instruction::GrantRole { user: *user, role: role.to_string() },
+        )
     }
 
     pub fn mint_to_ix(&self, t: usize, dest: &Pubkey, amount: u64) -> Instruction {
